@@ -43,6 +43,8 @@ NoSrv == [kind |-> "none", at |-> "none", k |-> 0]
 \* tfault   : transport error "before" / "after" the request body was consumed
 \* srv      : server closes / stalls / truncates inside the status line, the headers or after k complete body units
 \* cancel   : the context is cancelled during "auth", during "send" (request consumed, nothing answered) or by the reader ("read")
+\* texp     : the request timeout is already over when the exchange starts (SetTimeout with a negative or a
+\*            vanishing duration, e.g. time.Until(a spent budget)): the effective deadline has passed at once
 \* reader   : the response reader reads to the end ("all"), nothing ("p0") or one unit ("p1")
 Payloads ==
   [ none   |-> [payload |-> "none",   fields |-> 0, nfiles |-> 0],
@@ -57,7 +59,7 @@ Payloads ==
 Base(p, reuse, auth, reader, cancel) ==
   [payload |-> p.payload, fields |-> p.fields, nfiles |-> p.nfiles, reuse |-> reuse, auth |-> auth,
    reader |-> reader, cancel |-> cancel, werr |-> "none", autherr |-> FALSE, authwait |-> FALSE,
-   urlerr |-> FALSE, src |-> <<NoSrc, NoSrc>>, tfault |-> "none", srv |-> NoSrv]
+   urlerr |-> FALSE, src |-> <<NoSrc, NoSrc>>, tfault |-> "none", srv |-> NoSrv, texp |-> FALSE]
 
 BaseScripts(PNames, Auths, Readers, Cancels) ==
   { Base(Payloads[q[1]], q[2], q[3], q[4], q[5]) :
@@ -68,7 +70,7 @@ NSources(c) == IF c.payload = "mp" THEN c.nfiles ELSE IF c.payload = "reader" TH
 NFaults(c) ==
     (IF c.werr # "none" THEN 1 ELSE 0) + (IF c.autherr THEN 1 ELSE 0) + (IF c.authwait THEN 1 ELSE 0)
   + (IF c.urlerr THEN 1 ELSE 0) + (IF c.src[1].kind # "none" THEN 1 ELSE 0) + (IF c.src[2].kind # "none" THEN 1 ELSE 0)
-  + (IF c.tfault # "none" THEN 1 ELSE 0) + (IF c.srv.kind # "none" THEN 1 ELSE 0)
+  + (IF c.tfault # "none" THEN 1 ELSE 0) + (IF c.srv.kind # "none" THEN 1 ELSE 0) + (IF c.texp THEN 1 ELSE 0)
 
 HasFault(c) == NFaults(c) > 0 \/ c.cancel # "none"
 
@@ -78,6 +80,7 @@ FaultOptions(c) ==
   \cup (IF c.auth # "none" /\ ~c.autherr THEN { [c EXCEPT !.autherr = TRUE] } ELSE {})
   \cup (IF c.auth # "none" /\ ~c.authwait THEN { [c EXCEPT !.authwait = TRUE] } ELSE {})
   \cup (IF ~c.urlerr THEN { [c EXCEPT !.urlerr = TRUE] } ELSE {})
+  \cup (IF ~c.texp THEN { [c EXCEPT !.texp = TRUE] } ELSE {})
   \cup { [c EXCEPT !.src[i] = [kind |-> k, off |-> o]] :
            i \in { j \in 1..NSources(c) : c.src[j].kind = "none" }, k \in {"err", "short"}, o \in 0..FileLen }
   \cup (IF c.tfault = "none" THEN { [c EXCEPT !.tfault = t] : t \in {"before", "after"} } ELSE {})
@@ -176,7 +179,8 @@ CallerNext(c, s) ==
                 [] OTHER        -> { BuildFail(c, x.st) }
     [] s.pc = "authret" -> IF c.autherr THEN { BuildFail(c, s) } ELSE { [s EXCEPT !.pc = "url"] }
     [] s.pc = "url"     -> IF c.urlerr  THEN { BuildFail(c, s) } ELSE { [s EXCEPT !.pc = "send"] }
-    [] s.pc = "send"    -> { [s EXCEPT !.pc = "hdrs", !.tpc = "start"] }    \* client.Do
+    [] s.pc = "send"    ->     \* context.WithTimeout(parent, request.timeout) - already expired when texp; client.Do
+         { [s EXCEPT !.pc = "hdrs", !.tpc = "start", !.ctx = IF c.texp /\ @ = "no" THEN "deadline" ELSE @] }
     [] s.pc = "hdrs" ->
          IF s.tpc = "fail" THEN { [s EXCEPT !.res = "err", !.pc = "returned"] }
          ELSE IF s.resp THEN { [s EXCEPT !.pc = "read",
